@@ -27,3 +27,16 @@ Proof.
   eexists. split; [vm_compute; reflexivity|]. reflexivity.
 Qed.
 Print Assumptions C08_mask_zero_columns_refuted.
+
+(* finding C08-bloc-assign-coerces-whole-block: a 2-column int64 block, the key addresses column b only, the value is a
+   bool: the model (as the code) casts the WHOLE block, so column a -- no cell addressed -- becomes object too *)
+Theorem C08_bloc_whole_block_cast_refuted :
+  exists (t : tb val) (masks : list (list bool)) (newdt : dtype -> dtype) (cells : Z -> list bool -> list val -> list val),
+    wf_tb t /\ length masks = length (flatten t) /\
+    map fst (flatten (bloc_walk newdt cells 0 t masks)) <> S_bloc_dtypes newdt masks (map fst (flatten t)).
+Proof.
+  exists [mk_block (DInt true 8) false [[VInt 1; VInt 2]; [VInt 3; VInt 4]]], [[false; false]; [true; true]],
+         (fun _ => DObj), (fun _ m c => write_mask m [VBool true; VBool true] c).
+  split; [repeat constructor; cbn; try lia; intros; discriminate|]. split; [reflexivity|]. vm_compute. discriminate.
+Qed.
+Print Assumptions C08_bloc_whole_block_cast_refuted.
